@@ -1032,7 +1032,7 @@ class Engine:
         if ta is str:
             if a == b:
                 return a
-            raise MergeFail("strings differ")
+            return SymStr("opaque", "merge of different strings")  # only loggable; any use of the content is Unsupported
         if isinstance(a, (Ptr, Slice, MapRef, Closure)):
             if a == b:
                 return a
@@ -1494,6 +1494,10 @@ class Engine:
             # build an ite chain instead of forking (value arrays of scalars)
             _, alts, alts2 = k
             et = self.ir.under(ins["xt"])["elem"]
+            if not alts:
+                if alts2:
+                    raise GoPanic("index out of range (symbolic) Index")
+                raise PathEnd("assume_false")  # no feasible index value: the path condition is unsatisfiable
             res = x[alts[-1][2]]
             for c, _, kk in reversed(alts[:-1]):
                 res = self.merge_val(c, x[kk], res, et)
